@@ -482,6 +482,26 @@ def run(ctx):
 
     drive.for_each_case(ctx, 'names', 40, body_names_and_history, gen=lambda c, r: Ty('int'))
 
+    # the documented way to derive a field (init=False, assigned by __post_init__) on a class that is not frozen: the assignment lands in
+    # the set-field record, and replace() still works - changing what it is told to, re-deriving the rest
+    def body_derived_replace(i, rng, ty, T):
+        def post(self):
+            self.area = self.w * self.h
+        Rect = type(f"VD{next(_serial)}", (env.PaneBase,), {'__annotations__': {'w': int, 'h': int, 'area': int}, 'h': 3, 'area': env.pfield(init=False), '__post_init__': post,
+                                                           '__module__': __name__}, frozen=False)
+        r0 = rng.choice((Rect(2), Rect(2, 4), Rect.from_data({'w': 2}), Rect.from_data({'w': 2, 'h': 5})))
+        if rng.random() < 0.5:
+            r0.area = r0.area           # an explicit assignment by the caller, too
+        o = observe(r0.__replace__, h=7)
+        o2 = observe(r0.__replace__)
+        ctx.count('replace_checks', 2)
+        ctx.case(('derived-replace', o.kind, o2.kind), nontrivial=True)
+        if o.kind != 'value' or (o.val.w, o.val.h, o.val.area) != (2, 7, 14) or o2.kind != 'value' or o2.val != r0:
+            ctx.violation('replace', 'derived-replace', i, {'instance': short(r0), 'set_record': short(sorted(r0.__pane_set__)), 'replace(h=7)': o.brief()[:200], 'replace()': o2.brief()[:200]},
+                          mech='replace:refused-after-init-false-assignment')
+
+    drive.for_each_case(ctx, 'derived-replace', 20, body_derived_replace, gen=lambda c, r: Ty('int'))
+
     # a subscripted generic class is its origin as far as value semantics go: instances of G[int] use the methods the body of G defines
     # (or the ones generated for G), exactly like instances of G
     def body_generic_methods(i, rng, ty, T):
